@@ -95,8 +95,14 @@ func (b *baseCockpit) remove(t *task.Task) {
 		mark = aurora.Red("✗")
 	}
 	b.spinner.FinalMSG = fmt.Sprintf("%s Finished %s in %s\r\n", mark, aurora.Bold(t.Name), t.Duration())
-	b.spinner.Restart()
-	b.spinner.FinalMSG = ""
+	b.spinner.Stop()
+
+	// a stopped spinner is not started again: its goroutine may have returned
+	// with the spinner's lock held, which would block Start for ever
+	b.mu.Lock()
+	b.spinner = nil
+	b.spinner = b.start()
+	b.mu.Unlock()
 }
 
 func newCockpitOutputWriter(t *task.Task, w io.Writer, close chan bool) *cockpitOutputDecorator {
